@@ -197,12 +197,17 @@ fn serial_reference(g: &G, c: &Call) -> Option<Vec<u64>> {
             }
             let mut v = vec![];
             for s in &names {
-                if let Ok(x) = dijkstra::single_source(g, *weighted, *s, None, None, false, true) {
-                    for (_, spi) in x {
-                        if spi.contains_path_through_node(*node) {
-                            v.push(spi);
+                match dijkstra::single_source(g, *weighted, *s, None, None, false, true) {
+                    Ok(x) => {
+                        for (_, spi) in x {
+                            if spi.contains_path_through_node(*node) {
+                                v.push(spi);
+                            }
                         }
                     }
+                    // a per-source error (ContradictoryPaths on a negative weight) is all_pairs' error, which
+                    // get_all_shortest_paths_involving maps to the empty vector
+                    Err(_) => return canon_infos(&[]),
                 }
             }
             canon_infos(&v)
@@ -497,6 +502,42 @@ pub fn run_case(lines: &[Vec<String>], o: &mut Out) {
                     p.install(|| (0..n).into_par_iter().map(item).collect::<Vec<i64>>())
                 })));
                 o.obs(63, &[vec![k_vec, k_range]], &[]);
+                // items that RETURN an error, collected into Result<Vec<_>, E> (the region of all_pairs /
+                // multi_source since the repair of F22): item i returns Err(i) iff xs[i] is divisible by 7, low
+                // indices made slow.  Which error does rayon keep?  (-1: Ok, and then the vector must be map f xs)
+                let item_r = |i: usize| -> Result<i64, i64> {
+                    let mut acc = 0u64;
+                    for k in 0..((n - i) * 400) {
+                        acc = acc.wrapping_add(k as u64 ^ acc);
+                    }
+                    std::hint::black_box(acc);
+                    if xs[i] % 7 == 0 {
+                        Err(i as i64)
+                    } else {
+                        Ok(f(xs[i]))
+                    }
+                };
+                let want: Vec<i64> = xs.iter().map(|x| f(*x)).collect();
+                let kept = |r: Option<Result<Vec<i64>, i64>>| -> i64 {
+                    match r {
+                        Some(Ok(v)) => {
+                            if v == want {
+                                -1
+                            } else {
+                                -3
+                            }
+                        }
+                        Some(Err(i)) => i,
+                        None => -2,
+                    }
+                };
+                let idx4: Vec<usize> = (0..n).collect();
+                let e_vec = kept(guard(|| p.install(|| idx4.into_par_iter().map(item_r).collect::<Result<Vec<i64>, i64>>())));
+                let e_range = kept(guard(|| p.install(|| (0..n).into_par_iter().map(item_r).collect::<Result<Vec<i64>, i64>>())));
+                // the serial collect keeps the error of the lowest index
+                let e_serial = kept(guard(|| (0..n).map(item_r).collect::<Result<Vec<i64>, i64>>()));
+                o.obs(65, &[vec![e_vec, e_range, e_serial]], &[]);
+                o.obs(64, &[vec![1, 1, 1]], &[]);
             }
             other => panic!("unknown par case line {}", other),
         }
